@@ -146,3 +146,42 @@ Fixpoint no_once_after_stop_from (stopped : list N) (l : list bop) : bool :=
   | BBad :: l' => no_once_after_stop_from stopped l'
   end.
 Definition no_once_after_stop (l : list bop) : bool := no_once_after_stop_from [] l.
+
+(* ---- the proposed repair (/tmp/c17/fix-buffered.diff), transcribed --------------------------------
+   getOperations skips an item it cannot parse instead of failing, and a StopProviding
+   that was queued before a ProvideOnce of the same key (and not overridden by a later
+   StartProviding) goes to a second stop group that is executed after the StartProviding
+   calls and BEFORE ProvideOnce.  Theorems: Proofs/BufferedProofs.v (lemmas fix_...): keystore
+   equivalence for all operation lists including undecodable items, and both inclusions
+   on the keys waiting to be advertised without the side condition. *)
+Record fgroups := { fg : groups; fg_early : list N }.
+Definition fgroups0 : fgroups := {| fg := groups0; fg_early := [] |}.
+
+Definition fix_step (a : fgroups) (o : bop) : fgroups :=
+  let g := fg a in
+  match o with
+  | BOnce k =>
+      if memN k (g_stop g)
+      then {| fg := {| g_once := g_once g ++ [k]; g_start := g_start g; g_force := g_force g;
+                       g_stop := delN k (g_stop g) |};
+              fg_early := setN k (fg_early a) |}
+      else {| fg := {| g_once := g_once g ++ [k]; g_start := g_start g; g_force := g_force g;
+                       g_stop := g_stop g |};
+              fg_early := fg_early a |}
+  | BStart k => {| fg := {| g_once := g_once g; g_start := g_start g ++ [k]; g_force := g_force g;
+                            g_stop := delN k (g_stop g) |};
+                   fg_early := delN k (fg_early a) |}
+  | BForce k => {| fg := {| g_once := g_once g; g_start := g_start g; g_force := g_force g ++ [k];
+                            g_stop := delN k (g_stop g) |};
+                   fg_early := delN k (fg_early a) |}
+  | BStop k => {| fg := {| g_once := g_once g; g_start := g_start g; g_force := g_force g;
+                           g_stop := setN k (g_stop g) |};
+                  fg_early := fg_early a |}
+  | BBad => a
+  end.
+Definition fix_operations (l : list bop) : fgroups := fold_left fix_step l fgroups0.
+
+Definition fix_batch_calls (l : list bop) : list icall :=
+  let a := fix_operations l in
+  call_if (IStart true) (g_force (fg a)) ++ call_if (IStart false) (g_start (fg a))
+  ++ call_if IStop (fg_early a) ++ call_if IOnce (g_once (fg a)) ++ call_if IStop (g_stop (fg a)).
